@@ -84,7 +84,16 @@ func c15Gen(x *mcx.Exec, method string, max int) J {
 		}
 		pi[other] = J{"responses": J{"200": J{"description": "ok"}}, "parameters": []any{c15Param("query:limit", "other")}}
 	}
-	doc["paths"] = J{"/a/{id}": pi, "/b": J{"parameters": []any{c15Param("query:id", "pathb")}}}
+	paths := J{"/a/{id}": pi, "/b": J{"parameters": []any{c15Param("query:id", "pathb")}}}
+	// further operations with their own ids in other path items: lookups by id are then issued in several orders on one
+	// analyzer (an index of ids that is built lazily or partially is only wrong for a later lookup)
+	{
+		paths["/0first"] = J{"get": J{"operationId": "opFirst", "parameters": []any{c15Param("query:limit", "first")}, "responses": J{"200": J{"description": "ok"}}}}
+		paths["/c"] = J{"get": J{"operationId": "opC", "parameters": []any{c15Param("query:limit", "c")}, "responses": J{"200": J{"description": "ok"}}}}
+		paths["/d"] = J{"parameters": []any{c15Param("header:id", "pathd")},
+			"put": J{"operationId": "opD", "parameters": []any{J{"$ref": "#/parameters/sp"}}, "responses": J{"200": J{"description": "ok"}}}}
+	}
+	doc["paths"] = paths
 	return doc
 }
 
@@ -278,7 +287,7 @@ func c15Check(docJSON string, pol mcrt.Policy) (sig, what string, nontrivial boo
 		}
 	}
 	// by operation id
-	for _, id := range []string{"theOp", "no-such-op"} {
+	for _, id := range []string{"theOp", "no-such-op", "opC", "opD", "theOp", "opFirst"} {
 		var pi, op map[string]any
 		for _, p := range h.SortedKeys(paths) {
 			for _, m := range methods7 {
